@@ -42,3 +42,11 @@ package signature
 //@   enter vrdKeyTag = tagof(pubKey)
 //@   enter vrdKeyVal = valof(pubKey)
 //@   leave vrdOK = (result == nil)
+//@
+//@ func signature.GetSigner
+//@   inline
+//@   property C04 C11
+//@   enter gsCalls = gsCalls + 1
+//@   enter gsCert = string(cert)
+//@   enter gsKey = key
+//@   enter gsAlg = signatureAlgorithm
